@@ -353,6 +353,122 @@ def positive_controls(chk):
     chk.count('negative_controls_quiet', 1)
 
 
+def unpad_constant_time(chk):
+    """OAEP unpadding works on the decrypted block, which is secret until the verdict is out: a branch, an address or a copy length that
+    depends on its bytes before that point is Manger's oracle.  br_rsa_oaep_unpad is not an entry of the whole-call-tree analysis (its
+    hash callees flood it, see the entry table); instead an intraprocedural taint analysis with opaque callees: sources are the
+    bytes loaded from the data buffer, labels flow through arithmetic, phis and the constant-time helpers (EQ, NOT, GE, MUX, ...);
+    sinks are branch / switch conditions, load / store addresses, memmove / memcpy / memset operands and divisions.  Released by
+    contract: the returned verdict - the branch on the very value the function returns, and everything it dominates (the message
+    length is revealed only for a valid padding).  The callees that receive the buffer (MGF1, the label hash) are trusted here."""
+    R = 'unpadding-constant-time'
+    HELPERS = ('EQ', 'NEQ', 'NOT', 'GT', 'GE', 'LT', 'LE', 'MUX', 'EQ0', 'CMP', 'BIT_LENGTH', 'MIN', 'MAX')
+    n = 0
+    for src, fn, dparam in (('src/rsa/rsa_oaep_unpad.c', 'br_rsa_oaep_unpad', 3),):
+        u = build.load_unit(src)
+        F = next((irf.Func(u, f) for f in u['functions'] if f['name'] == fn and f.get('blocks')), None)
+        if F is None:
+            raise AnalysisBroken('%s vanished from %s' % (fn, src))
+
+        def rooted(o, seen=None):
+            seen = seen if seen is not None else set()
+            if o['k'] == 'a':
+                return o['v'] == dparam
+            if o['k'] != 'i' or o['v'] in seen:
+                return False
+            seen.add(o['v'])
+            i = F.insts[o['v']]
+            if i['op'] in ('getelementptr', 'bitcast'):
+                return rooted(i['ops'][0], seen)
+            if i['op'] == 'phi':
+                return any(rooted(q, seen) for q in i['ops'])
+            return False
+        taint = set()
+        ch = True
+        while ch:
+            ch = False
+            for i in F.insts.values():
+                if i['id'] in taint:
+                    continue
+                t = False
+                if i['op'] == 'load':
+                    t = rooted(i['ops'][0])
+                elif i['op'] == 'call':
+                    t = (i.get('callee') in HELPERS) and any(o['k'] == 'i' and o['v'] in taint for o in i['ops'])
+                elif i['op'] in ('store', 'br', 'switch', 'ret', 'alloca', 'dbgvalue', 'getelementptr'):
+                    t = False
+                else:
+                    t = any(o['k'] == 'i' and o['v'] in taint for o in i['ops'])
+                if t:
+                    taint.add(i['id'])
+                    ch = True
+        if not taint:
+            raise AnalysisBroken('%s: no byte of the data buffer is read' % fn)
+        # the released verdict
+        rets = [b['insts'][-1] for b in F.blocks if b['insts'][-1]['op'] == 'ret']
+        retvals = set(r['ops'][0]['v'] for r in rets if r['ops'] and r['ops'][0]['k'] == 'i')
+        for _ in range(4):      # early `return 0` paths merge with the verdict in a phi
+            for v in list(retvals):
+                if F.insts[v]['op'] == 'phi':
+                    retvals |= set(q['v'] for q in F.insts[v]['ops'] if q['k'] == 'i')
+        released = set()          # blocks dominated by the taken side of a branch on the returned value
+        verdict_brs = set()
+        for b in F.blocks:
+            t = b['insts'][-1]
+            if t['op'] == 'br' and len(t['ops']) == 3 and t['ops'][0]['k'] == 'i':
+                c = F.insts[t['ops'][0]['v']]
+                if c['op'] == 'icmp' and c['pred'] in ('ne', 'eq') and c['ops'][1]['k'] == 'c' and c['ops'][1]['v'] == 0 and \
+                        c['ops'][0]['k'] == 'i' and c['ops'][0]['v'] in retvals:
+                    verdict_brs.add(t['id'])
+                    dest = t['ops'][2]['v'] if c['pred'] == 'ne' else t['ops'][1]['v']
+                    if len(F.pred[dest]) == 1:
+                        released |= set(x['id'] for x in F.blocks if F.dominates_block(dest, x['id']))
+
+        def tainted(o):
+            return o['k'] == 'i' and o['v'] in taint
+
+        def addr_tainted(o, depth=0):
+            if o['k'] != 'i' or depth > 8:
+                return False
+            i = F.insts[o['v']]
+            if i['op'] == 'getelementptr':
+                return any(tainted(q) for q in i['ops'][1:]) or addr_tainted(i['ops'][0], depth + 1)
+            if i['op'] == 'bitcast':
+                return addr_tainted(i['ops'][0], depth + 1)
+            return i['op'] not in ('phi', 'alloca', 'load') and tainted(o)
+        sinks = 0
+        for i in F.insts.values():
+            if F.block_of[i['id']] in released:
+                continue
+            bad = None
+            if i['op'] == 'br' and len(i['ops']) == 3 and tainted(i['ops'][0]) and i['id'] not in verdict_brs:
+                bad = 'branch'
+            elif i['op'] == 'switch' and tainted(i['ops'][0]):
+                bad = 'switch'
+            elif i['op'] == 'load' and addr_tainted(i['ops'][0]):
+                bad = 'load address'
+            elif i['op'] == 'store' and addr_tainted(i['ops'][1]):
+                bad = 'store address'
+            elif i['op'] in ('udiv', 'sdiv', 'urem', 'srem') and any(tainted(o) for o in i['ops']):
+                bad = 'division'
+            elif i['op'] == 'call' and (i.get('callee') or '').startswith(('llvm.mem', 'memcpy', 'memmove', 'memset', 'memcmp')) and \
+                    (any(tainted(o) for o in i['ops'][:3]) or any(addr_tainted(o) for o in i['ops'][:2])):
+                bad = 'memory routine operand'
+            if i['op'] in ('br', 'switch', 'load', 'store', 'udiv', 'sdiv', 'urem', 'srem') or (i['op'] == 'call' and (i.get('callee') or '').startswith('llvm.mem')):
+                sinks += 1
+            if bad:
+                chk.violation(R, '%s: %s at line %s does not depend on the decrypted block' % (fn, bad, i.get('line')), F.where(i),
+                              'it depends on bytes of the decrypted block before the padding verdict is released: the rejection path tells an attacker '
+                              'something about the plaintext (padding oracle)', key='%s %s %s' % (R, fn, bad))
+        n += 1
+        if not verdict_brs:
+            chk.violation(R, '%s: the released verdict is the returned value' % fn, F.where(), 'no branch on the returned value found: the release point cannot be identified',
+                          key='%s %s no-release' % (R, fn))
+        chk.ok(R, '%s: no branch, address, copy operand or division depends on the decrypted block before the verdict (%d labelled values, %d sinks examined)'
+               % (fn, len(taint), sinks), F.where())
+    chk.floor('unpadding functions', n, 1)
+
+
 def run(tier):
     chk = report.Check('C08', tier,
                        'IR-level secret-taint analysis (sa/flow.py) of the constant-time entry points: starting from the documented secret '
@@ -370,6 +486,7 @@ def run(tier):
     positive_controls(chk)
     mark_justification(chk)
     bits2int_order(chk)
+    unpad_constant_time(chk)
     from . import c03 as _c03
     _c03.failed_keyx_randomised(chk)
     flow.all_units()
